@@ -78,7 +78,7 @@ impl<'a, 'tcx> Cx<'a, 'tcx> {
                             (v.fields[f].name.to_string(), tcx.def_path_str(adt.did()))
                         }
                         ty::Closure(did, _) => (format!("upvar{}", f.as_usize()), tcx.def_path_str(*did)),
-                        ty::Tuple(_) => (format!("{}", f.as_usize()), "tuple".to_string()),
+                        ty::Tuple(_) => (format!("{}", f.as_usize()), format!("tuple{}", pty.ty)),
                         _ => (format!("{}", f.as_usize()), pty.ty.to_string()),
                     };
                     J::Arr(vec![J::s("field"), J::n(f.as_usize()), J::s(name), J::s(owner), J::s(fty.to_string())])
